@@ -407,8 +407,11 @@ outside his scope (`trust_changes_only_if_authorized`) — still happens when on
 accounts; the harness counts each kind in its statistics (`fired_by_key_id_other_account`,
 `cross_owner_discarded`, `cross_owner_overwritten`, `held_decision_superseded`,
 `cross_owner_superseded_in_cascade`):
-* R1 a decision sent with key id `ks` by account `S` is applied when `ks` is authenticated for the own account or
-  for the decision's owner, even if that is not `S` (bound: `postponed_fire_only_if_authenticated`);
+* R1 a decision sent with key id `ks` by account `S` is applied when a key with id `ks` is authenticated — for
+  whatever account — in a batch that also contains an own key or a key of the decision's owner (`InScopeOf`;
+  typically: `ks` authenticated for the own account or for the decision's owner instead of `S`; batches with keys
+  of several accounts only arise from own keys / own devices, which may decide about everybody anyway)
+  (bound: `postponed_fire_only_if_authenticated`);
 * R2 it is dropped unapplied when another fired entry has the same verdict for the same key ID of ANOTHER owner,
   R3 when `ks` is distrusted for any account, R4 when another account's message with sender key id `ks` restates
   it the other way — and by nothing else (`held_entry_leaves_only_when`, last clause of `held_back`).
